@@ -238,18 +238,24 @@ func (wg *WaitGroup) Wait() {
 type Once struct {
 	done bool
 	m    Mutex
+	ep   uint64 // the run in which it was done (0: outside any run - that stays done)
 }
 
-// Do calls f once.
+// Do calls f once - once per simulated run for a Once that was done during an earlier run (a
+// lazily initialised package-level object starts every run as it starts a fresh process).
 func (o *Once) Do(f func()) {
 	rt.Yield()
+	if o.done && o.ep != 0 && o.ep != rt.RunEpoch() {
+		o.done = false
+		rt.Reach("once.done-in-an-earlier-run-forgotten")
+	}
 	if o.done {
 		return
 	}
 	o.m.Lock()
 	defer o.m.Unlock()
 	if !o.done {
-		defer func() { o.done = true }()
+		defer func() { o.done, o.ep = true, rt.RunEpoch() }()
 		f()
 	}
 }
